@@ -176,29 +176,22 @@ func (mq *MessageQueue) runQueue() {
 	for {
 		select {
 		case <-mq.outgoingWork:
+			select {
+			case <-mq.done:
+				// the queue has been shut down: queued messages fail, no new send is started
+				mq.failQueuedMessages()
+				mq.closeSender()
+				return
+			default:
+			}
 			mq.sendMessage()
 		case <-mq.done:
 			select {
 			case <-mq.outgoingWork:
-				for {
-					_, metadata, err := mq.extractOutgoingMessage()
-					if err == nil {
-						span := trace.SpanFromContext(metadata.ctx)
-						err := fmt.Errorf("message queue shutdown")
-						span.RecordError(err)
-						span.SetStatus(codes.Error, err.Error())
-						span.End()
-						mq.publishError(metadata, err)
-						mq.eventPublisher.Close(metadata.topic)
-					} else {
-						break
-					}
-				}
+				mq.failQueuedMessages()
 			default:
 			}
-			if mq.sender != nil {
-				mq.sender.Close()
-			}
+			mq.closeSender()
 			return
 		case <-mq.ctx.Done():
 			if mq.sender != nil {
@@ -206,6 +199,29 @@ func (mq *MessageQueue) runQueue() {
 			}
 			return
 		}
+	}
+}
+
+// failQueuedMessages reports every message still queued as failed
+func (mq *MessageQueue) failQueuedMessages() {
+	for {
+		_, metadata, err := mq.extractOutgoingMessage()
+		if err != nil {
+			return
+		}
+		span := trace.SpanFromContext(metadata.ctx)
+		err = fmt.Errorf("message queue shutdown")
+		span.RecordError(err)
+		span.SetStatus(codes.Error, err.Error())
+		span.End()
+		mq.publishError(metadata, err)
+		mq.eventPublisher.Close(metadata.topic)
+	}
+}
+
+func (mq *MessageQueue) closeSender() {
+	if mq.sender != nil {
+		mq.sender.Close()
 	}
 }
 
